@@ -10,7 +10,8 @@
 (* property "no result depends on what was done before".                                      *)
 (*                                                                                            *)
 (* kinds: "J" PointJacobi, "G" PointJacobi created generator-flagged (lazy table),            *)
-(*        "A" legacy affine Point, "K" VerifyingKey (value = its public point's scalar)       *)
+(*        "A" legacy affine Point, "K" VerifyingKey (value = its public point's scalar),      *)
+(*        "S" SigningKey (value = its private scalar d; its public point is d*G)             *)
 (* `last` records the operation just performed with its arguments and its specified result;   *)
 (* behaviours are replayed step by step on real objects by the harness.                       *)
 EXTENDS Naturals, Integers, Sequences, TLC
@@ -30,6 +31,10 @@ Ix == 1..Len(objs)
 Points == {i \in Ix : Kind(i) \in {"J", "G", "A"}}
 Jac == {i \in Ix : Kind(i) \in {"J", "G"}}
 Keys == {i \in Ix : Kind(i) = "K"}
+SKeys == {i \in Ix : Kind(i) = "S"}
+(* nonces offered to Sign: 0 stands for the deterministic (RFC 6979) nonce, otherwise an explicit k in [1, N-1] *)
+Nonces == {0} \cup {s \in Scalars : s > 0 /\ s < N}
+Digests == 0..2      \* index of one of three fixed digests (shorter than, as long as, longer than the order)
 Room == Len(objs) < MaxObjs
 Mod(x) == x % N
 Rec(op, i, j, k, m, res) == [op |-> op, i |-> i, j |-> j, k |-> k, m |-> m, res |-> res]
@@ -84,7 +89,23 @@ Precompute(i, lazy) == /\ i \in Keys /\ Keep /\ last' = Rec("precompute", i, 0, 
 (* only requirement is the property's own: the same outcome as a fresh key of the same value  *)
 Verify(i, other) == /\ i \in Keys /\ Keep /\ last' = Rec("verify", i, 0, other, 0, IF other = 0 THEN 1 ELSE 0)
 KeyToString(i, enc) == /\ i \in Keys /\ Keep /\ last' = Rec("to_string", i, 0, enc, 0, Val(i))
-KeyEq(i, j) == /\ i \in Keys /\ j \in Keys /\ Keep /\ last' = Rec("keyeq", i, j, 0, 0, IF Val(i) = Val(j) THEN 1 ELSE 0)
+KeyEq(i, j) == /\ ((i \in Keys /\ j \in Keys) \/ (i \in SKeys /\ j \in SKeys)) /\ Keep /\ last' = Rec("keyeq", i, j, 0, 0, IF Val(i) = Val(j) THEN 1 ELSE 0)
+(* signing keys.  A signature is a function of (d, digest, nonce) only - never of what the key, its verifying key,  *)
+(* the curve's base point or any derived object has been used for before; the group Z_N cannot express r = x(kG),    *)
+(* so `res` names the key's value and the harness compares the bytes with those of a freshly built key of that value *)
+NewSK(v) == /\ Room /\ v # 0 /\ Push(v, "S", TRUE) /\ last' = Rec("newsk", 0, 0, 0, 0, v)
+(* sk.verifying_key: the SAME public-key object the signing key uses (aliasing: precompute() through it is visible to the signer) *)
+VKOf(i) == /\ i \in SKeys /\ Room /\ Push(Val(i), "K", TRUE) /\ last' = Rec("vkof", i, 0, 0, 0, Val(i))
+Sign(i, e, k) == /\ i \in SKeys /\ Keep /\ last' = Rec("sign", i, 0, e, k, Val(i))
+(* serialisations: f = 0 raw string, 1 / 2 DER (RFC 5915 / PKCS#8), 3 / 4 PEM (RFC 5915 / PKCS#8) *)
+SKSerial(i, f) == /\ i \in SKeys /\ Keep /\ last' = Rec("sk_serial", i, 0, f, 0, Val(i))
+SKReload(i, f) == /\ i \in SKeys /\ Room /\ Push(Val(i), "S", TRUE) /\ last' = Rec("sk_reload", i, 0, f, 0, Val(i))
+(* verifying keys re-loaded from their own serialisation: f = 0..3 the four point encodings, 4 DER, 5 PEM, 6 DER with a compressed point *)
+KReload(i, f) == /\ i \in Keys /\ Room /\ Push(Val(i), "K", TRUE) /\ last' = Rec("k_reload", i, 0, f, 0, Val(i))
+(* key i verifies a (deterministic) signature made NOW by signing key j of the pool: 1 = must accept (same value);  *)
+(* 2 = the outcome of a fresh key of the same value (a key of another value may happen to verify in a small group)   *)
+VerifyBy(i, j, e) == /\ i \in Keys /\ j \in SKeys /\ Keep
+                     /\ last' = Rec("verify_by", i, j, e, 0, IF Val(i) = Val(j) THEN 1 ELSE 2)
 
 Next ==
   \/ \E v \in NewVals, kind \in {"J", "G", "A"}, k \in 0..3 : New(v, kind, k)
@@ -96,6 +117,12 @@ Next ==
   \/ \E i, j \in Ix, k, m \in Scalars : MulAdd(i, k, j, m)
   \/ \E i \in Ix, b \in {0, 1} : Precompute(i, b) \/ Verify(i, b)
   \/ \E i \in Ix, enc \in 0..3 : KeyToString(i, enc)
+  \/ \E v \in NewVals : NewSK(v)
+  \/ \E i \in Ix : VKOf(i)
+  \/ \E i \in Ix, e \in Digests, k \in Nonces : Sign(i, e, k)
+  \/ \E i \in Ix, f \in 0..4 : SKSerial(i, f) \/ SKReload(i, f)
+  \/ \E i \in Ix, f \in 0..6 : KReload(i, f)
+  \/ \E i, j \in Ix, e \in Digests : VerifyBy(i, j, e)
 
 Spec == Init /\ [][Next]_vars
 
@@ -105,11 +132,15 @@ ValuesNeverChange == [][\A i \in 1..Len(objs) : objs'[i] = objs[i]]_vars
 (* equality holds exactly when the denoted values are equal (hence is an equivalence relation) *)
 EqExact == last.op \in {"eq", "keyeq"} => (last.res = 1) = (objs[last.i].val = objs[last.j].val)
 (* a copy (pickle, to_affine, from_affine, key of a point) has the value of its source *)
-CopiesFaithful == last.op \in {"from_affine", "newkey"} => objs[Len(objs)].val = objs[last.i].val
+CopiesFaithful == last.op \in {"from_affine", "newkey", "vkof", "sk_reload", "k_reload"} /\ Len(objs) > 0 /\ last.i > 0 => objs[Len(objs)].val = objs[last.i].val
 (* arithmetic results are the group's *)
 ArithmeticExact ==
   /\ last.op = "add" => last.res = Mod(objs[last.i].val + objs[last.j].val)
   /\ last.op = "mul" => last.res = Mod(last.k * objs[last.i].val)
   /\ last.op = "muladd" => last.res = Mod(last.k * objs[last.i].val + last.m * objs[last.j].val)
-TypeOK == \A i \in 1..Len(objs) : objs[i].val \in 0..(N - 1) /\ objs[i].kind \in {"J", "G", "A", "K"}
+TypeOK == \A i \in 1..Len(objs) : objs[i].val \in 0..(N - 1) /\ objs[i].kind \in {"J", "G", "A", "K", "S"}
+(* a verifying key accepts the signatures of the signing key of the same value *)
+OwnSignaturesVerify == last.op = "verify_by" => ((last.res = 1) = (objs[last.i].val = objs[last.j].val))
+(* signing keys never have the value 0 (d in [1, N-1]) *)
+SKRange == \A i \in 1..Len(objs) : objs[i].kind = "S" => objs[i].val \in 1..(N - 1)
 =============================================================================
